@@ -6,7 +6,7 @@ From Coq Require Import List ZArith Lia.
 Require Import Avro.Model.Base Avro.Model.Prim Avro.Model.Schema Avro.Model.GoType Avro.Model.Time
                Avro.Model.Spec Avro.Model.Codec Avro.Model.Denote.
 Require Import Avro.Proofs.Wire Avro.Proofs.BuildP Avro.Proofs.ReadP Avro.Proofs.WriteP Avro.Proofs.SpecP
-               Avro.Proofs.RoundTrip Avro.Proofs.PrimP.
+               Avro.Proofs.RoundTrip Avro.Proofs.PrimP Avro.Proofs.TimeP Avro.Proofs.CanonP.
 Import ListNotations.
 Open Scope Z_scope.
 
@@ -53,6 +53,31 @@ Proof.
   rewrite int_read_enc by exact Hz. destruct (int_fits w z); reflexivity.
 Qed.
 Print Assumptions C13_int_widths.
+
+(* "decoding those bytes returns the original value": for any caller-supplied
+   schema the codec was built for, every value in the form a decode produces
+   ([canon], Proofs/CanonP.v: integers within the Go width, valid wrappers,
+   times at the schema's resolution — whole units in UTC for the timestamp
+   types over the whole range of the stored long, midnights for dates — and
+   omitted values equal to the destination's) is read back as itself, from
+   bytes that are a valid Avro encoding under that schema (C13_write_valid). *)
+Theorem C13_returns_original_value : forall reg s t om c v d bs fuel rest dest,
+  build reg s t om = Some c -> datum_of c s v = Some d -> phys_ok s d ->
+  c_write c v = Some bs -> (3 * dmax d + 1 <= fuel)%nat ->
+  canon c dest v ->
+  c_read fuel c dest (bs ++ rest) = Done v rest.
+Proof.
+  intros reg s t om c v d bs fuel rest dest Hb Hd Hp Hw Hf Hc.
+  exact (proj1 (write_then_read _ _ _ _ _ _ _ _ fuel rest dest v Hb Hd Hp Hw Hf (roundtrip_identity c s dest v d Hc Hd))).
+Qed.
+Print Assumptions C13_returns_original_value.
+
+(* a time under timestamp-millis / timestamp-micros is canonical for its codec at
+   every instant whose unit count fits the long — not only those within int64 nanoseconds *)
+Theorem C13_timestamp_canonical_whole_range : forall mult l dest, unit_ok mult -> int64_ok l ->
+  canon (CTimeLong mult) dest (VTime (time_of_units mult l)).
+Proof. intros mult l dest Hu Hl. cbn [canon]. split; [exact Hu|]. exists l. split; [exact Hl|reflexivity]. Qed.
+Print Assumptions C13_timestamp_canonical_whole_range.
 
 Example C13_ex :
   let t := TStruct [] [] [GF [65] true [97] [] (TPtr (TInt I16)); GF [66] true [98] [] (TWrap WTime); GF [67] true [99] [] (TWrap WNullFloat)] in
